@@ -7,7 +7,9 @@ import os
 
 ROOT = os.path.dirname(os.path.dirname(os.path.abspath(__file__)))
 
-TRUSTED = "reference models in vf/ref (bit-serial CRCs, frame/readout/COSEM builders), CPython 3.12, construct 2.10.70; workload generators seeded by VERIF_SEED"
+TRUSTED = ("reference models in vf/ref (bit-serial CRCs, frame/readout/COSEM builders), CPython 3.12, construct 2.10.70; workload generators seeded by VERIF_SEED; "
+           "shards rotate through process environments (logging disabled / DEBUG, TZ, per-shard PYTHONHASHSEED); reader monitors re-observe returned messages, "
+           "poison returned lists and run twin instances; detection power measured on 140 independently seeded faults + 35 mutants (selftest/RESULTS.md)")
 
 def _c(category, text, note, technique, sec):
     return dict(category=category, text=text, design_ref=f"DESIGN.md section 4, {sec}", note=note, technique=technique)
@@ -121,7 +123,7 @@ def main() -> None:
             }
         ],
         "checks": checks,
-        "notes": "Exit codes: 0 held on everything observed, 1 with a VIOLATION line, 2 inconclusive (no VIOLATION line). Known findings: KNOWN_FINDINGS.txt. VERIF_SEED / VERIF_TIER / VERIF_REPO / VERIF_JOBS are honoured.",
+        "notes": "Exit codes: 0 held on everything observed, 1 with a VIOLATION line, 2 inconclusive (no VIOLATION line). Known findings: KNOWN_FINDINGS.txt (12 defects, all repaired by 'fix:' commits in /repo; no open finding). VERIF_SEED / VERIF_TIER / VERIF_REPO / VERIF_JOBS are honoured. DESIGN.md section 8 records what was found, the false alarms of the machinery that were corrected, and which checks catch which seeded changes.",
         "not_applicable": na,
     }
     with open(os.path.join(ROOT, "MANIFEST.json"), "w") as fh:
